@@ -233,6 +233,12 @@ func genC18Layout(r *Rng, base string, allowNested bool) *c18Layout {
 	for k, nm := 0, r.Intn(3); k < nm; k++ {
 		depth := r.Pick([]string{"", "/deep", "/a/b/c"})
 		root := &c18Root{Kind: "mod", Local: fmt.Sprintf("%s/work%s/m%d", base, depth, k), Mod: fmt.Sprintf("example.com/m%d", k)}
+		if k == 0 && len(gps) > 0 && gps[0].Remote == gps[0].Local && r.Bool() {
+			// a module checked out under the GOPATH directory itself, next to src and pkg (~/go/work/m0):
+			// under the remote GOPATH's name, yet outside the two subtrees a GOPATH explains
+			root.Local = fmt.Sprintf("%s/%s%s/m%d", gps[0].Local, r.Pick([]string{"work", "dev", "src2", "zz"}), depth, k)
+			l.tag("gomod-under-gopath-dir")
+		}
 		if k == 0 {
 			firstModLocal = root.Local
 		} else if r.Bool() {
@@ -663,7 +669,14 @@ func runC18Layout(res *Result, pool *DrvPool, r *Rng, idx int, nested bool) {
 		// the oracle-checked stream must not contain a root inside a root
 		for _, a := range l.Roots {
 			for _, b := range l.Roots {
-				if a != b && (a.Nested || strings.HasPrefix(a.Remote, b.Remote+"/") || strings.HasPrefix(a.Local, b.Local+"/")) {
+				under := func(x, y string) bool {
+					if b.Kind == "gopath" && (a.Kind == "mod" || a.Kind == "gorun") {
+						// what a GOPATH explains is its src tree and its module cache: a module next to them is not inside either
+						return strings.HasPrefix(x, y+"/src/") || strings.HasPrefix(x, y+"/pkg/mod/")
+					}
+					return strings.HasPrefix(x, y+"/")
+				}
+				if a != b && (a.Nested || under(a.Remote, b.Remote) || under(a.Local, b.Local)) {
 					res.Disagree(Finding{Stream: stream, What: "generator bug: root " + a.Remote + " is nested in " + b.Remote})
 					return
 				}
